@@ -47,7 +47,12 @@ namespace vf
             rep.fail( last.sig, last.kase, last.detail );
          }
          else {
-            rep.fail( std::string( "rc-gave-up:" ) + name, "{\"kind\":\"crash-no-case\"}", "rapidcheck reported failure without an oracle failure (gave up / generation failure)" );
+            // rapidcheck gave up or an exception of the harness escaped: there is no oracle verdict and no case to replay, so
+            // this is not a violation of the property - it is counted as inconclusive and shows up in the evidence
+            ++rep.inconclusive;
+            rep.cls( std::string( "rapidcheck-failure-without-oracle-verdict:" ) + name );
+            std::fprintf( stderr, "harness: rapidcheck reported a failure for %s without an oracle verdict (inconclusive)\n", name );
+            return true;
          }
       }
       return ok;
